@@ -203,8 +203,12 @@ class Names:
         for _ in range(60):
             if r.random() < self.kw:
                 n = r.choice(SAFE_KW_NAMES)
-                if cls:
-                    n = n  # a class may be called `union`, say
+                # keywords with underscore affixes become bare keywords under the naming conversion (from_ -> from)
+                k = r.randrange(6)
+                if k == 0:
+                    n = n + "_"
+                elif k == 1 and not cls:
+                    n = r.choice(["from", "in", "import", "as", "class"]) + "_"
             else:
                 n = r.choice(pool)
             if r.random() < private_rate:
@@ -361,8 +365,8 @@ class PkgGen:
         """(source text, python value) of a literal default compatible with the annotation where easy"""
         r = self.r
         pool = {
-            "int": [("0", 0), ("1", 1), ("-5", -5), ("42", 42)],
-            "float": [("1.5", 1.5), ("-0.25", -0.25), ("2.0", 2.0), ("1e-05", 1e-05)],
+            "int": [("0", 0), ("1", 1), ("-5", -5), ("42", 42), ("+7", 7)],
+            "float": [("1.5", 1.5), ("-0.25", -0.25), ("2.0", 2.0), ("1e-05", 1e-05), ("+2.5", 2.5)],
             "str": [('"text"', "text"), ('""', ""), ("'a b'", "a b")],
             "bool": [("True", True), ("False", False)],
         }
